@@ -116,6 +116,9 @@ func (m MapSchema[K, V]) Unserialize(data any) (any, error) {
 	result := reflect.MakeMapWithSize(t, v.Len())
 	for _, k := range v.MapKeys() {
 		val := v.MapIndex(k)
+		if !val.IsValid() {
+			return nil, invalidMapKeyError(k)
+		}
 
 		unserializedKey, err := m.KeysValue.Unserialize(k.Interface())
 		if err != nil {
@@ -208,6 +211,9 @@ func (m MapSchema[K, V]) ValidateCompatibility(typeOrData any) error {
 	}
 
 	for _, k := range v.MapKeys() {
+		if !v.MapIndex(k).IsValid() {
+			return invalidMapKeyError(k)
+		}
 		if err := m.KeysValue.ValidateCompatibility(k.Interface()); err != nil {
 			return ConstraintErrorAddPathSegment(err, fmt.Sprintf("{%v}", k))
 		}
@@ -238,6 +244,9 @@ func (m MapSchema[K, V]) Validate(data any) error {
 	}
 
 	for _, k := range v.MapKeys() {
+		if !v.MapIndex(k).IsValid() {
+			return invalidMapKeyError(k)
+		}
 		if err := m.KeysValue.Validate(k.Interface()); err != nil {
 			return ConstraintErrorAddPathSegment(err, fmt.Sprintf("{%v}", k))
 		}
@@ -267,6 +276,14 @@ func (m MapSchema[K, V]) Serialize(data any) (any, error) {
 		result[serializedKey] = serializedValue
 	}
 	return result, nil
+}
+
+// invalidMapKeyError is returned for keys that cannot be looked up again in the map they came from. The only
+// such keys are floating point NaN values (NaN != NaN), which a CBOR or YAML decoder can produce.
+func invalidMapKeyError(key reflect.Value) error {
+	return &ConstraintError{
+		Message: fmt.Sprintf("Invalid map key '%v'", key),
+	}
 }
 
 // NewTypedMapSchema creates a new map schema with a defined underlying type.
